@@ -410,6 +410,12 @@ theorem nid_unique_rewrite_counterexample :
   rw [this]
   simp
 
+/-- the strongest guarded form of "a node id is unique within its graph whatever the node's class" that the unchanged
+    code satisfies: every operation that writes neither `GraphID` nor `NodeID` (decidable `Op.keepsKeys`) keeps NodeIDs
+    unique within every graph (= `nid_unique`; the unguarded statement fails: `nid_unique_rewrite_counterexample`) -/
+theorem nid_unique_partial (op : Op) (s : Store) (h : Store.Inv s) (hk : op.keepsKeys = true) (hall : ∀ g, UniqueNid s g) :
+    ∀ g, UniqueNid (Store.step op s).2 g := nid_unique op s h hk hall
+
 /-- Full statement ("the two backends return the same results for every operation sequence") fails once a node is
     re-homed by writing `GraphID`: the shared store shows it in the named graph, the one-graph-per-id store keeps it in
     its old container where no lookup finds it.  Known findings `C05:backends:<op>:GraphID-rewritten`. -/
@@ -420,6 +426,15 @@ theorem backends_diverge_on_rehoming_counterexample :
   refine ⟨[.addNode "g1" "a" "Link" none, .updateNodeProperty "g1" "a" "GraphID" (.str "g2")], .listAllNodeIds "g2", ?_, ?_⟩
   · rfl
   · rfl
+
+/-- the strongest guarded form of backend agreement: on every single-graph operation that writes neither `GraphID` nor
+    `NodeID` (= `backends_agree`; with a `GraphID` write the backends part: `backends_diverge_on_rehoming_counterexample`) -/
+theorem backends_agree_partial (op : Op) (s : Store) (d : DStore.DStore) (hs : Store.Inv s) (hd : DStore.Inv d)
+    (hsingle : DStore.single op = true) (hk : op.keepsKeys = true)
+    (heq : Store.abs s op.target = DStore.abs d op.target) :
+    outAbs (Store.step op s).1 = outAbs (DStore.step op d).1 ∧
+    Store.abs (Store.step op s).2 op.target = DStore.abs (DStore.step op d).2 op.target :=
+  backends_agree op s d hs hd hsingle hk heq
 
 /-- on the one-graph-per-id store every container behaves as a reference store of its own, for every inherited
     property-graph method and every value — key rewrites included (a re-homed node stays in its container): no
